@@ -109,6 +109,13 @@ static void exec15(const std::string &line) {
   if (w.size() >= 2 && w[0] == "set") {
     const lg::Pair *p = pairOf(w[1]); const pub::L *L = layoutOf(w[1]);
     if (p && L) checkPublished(*p, *L);
+    if (p && g_last[p->id].valid) {
+      // fields that only exist on one setter path (e.g. the reference-station record of 129029): table named after the path
+      std::vector<lg::Val> v; for (auto &c : g_last[p->id].in) v.push_back(c.v);
+      const lg::Variant &V = variantForSet(*p, v.data());
+      const pub::L *LV = strcmp(V.id, p->id) ? layoutOf(V.id) : nullptr;
+      if (LV) checkPublished(*p, *LV);
+    }
   }
 }
 
@@ -132,6 +139,7 @@ int main(int argc, char **argv) {
   Rng r(C.seed * 0x9E3779B97F4A7C15ULL ^ 0xC15C15ULL);
   int nRandom = C.thorough ? 1500 : 120;
   for (int li = 0; li < pub::nLayouts; li++) {
+    if (strchr(pub::layouts[li].id, '_')) continue;      // table of one setter path: exercised with its PGN
     const lg::Pair *pp = pairOf(pub::layouts[li].id);
     if (!pp) { C.fail(std::string("harness:no-setter:") + pub::layouts[li].id, "no setter glue for a PGN of the published table"); continue; }
     const lg::Pair &p = *pp;
